@@ -100,6 +100,8 @@ enum Suffix {
     ForeignP2p,
     ForeignRelay,
     ForeignRelayToOwn,
+    /// the sender names itself as the relay hop and somebody else as the target: ends in a foreign /p2p
+    OwnRelayToForeign,
 }
 
 #[derive(Clone, Debug)]
@@ -155,7 +157,13 @@ impl Gen<'_> {
         let other = if rng.bool() { self.stranger.public().to_peer_id() } else { self.keys[(sender % (self.keys.len() - 1)) + 1].public().to_peer_id() };
         let other = if other == own { self.stranger.public().to_peer_id() } else { other };
         let mut a = Multiaddr::empty().with(Protocol::Ip4(ip.into())).with(Protocol::Tcp(4000 + k as u16));
-        let s = match rng.weighted(&[40, 20, 25, 8, 7]) {
+        let s = match rng.weighted(&[40, 20, 25, 8, 7, 7]) {
+            5 => {
+                a.push(Protocol::P2p(own));
+                a.push(Protocol::P2pCircuit);
+                a.push(Protocol::P2p(other));
+                Suffix::OwnRelayToForeign
+            }
             0 => Suffix::None,
             1 => {
                 a.push(Protocol::P2p(own));
